@@ -177,6 +177,6 @@ func vcLemma_wire_UlNasTransport_establishment(psi uint8, rt uint8, sst uint8, s
 	vc.Assert("epco", w[13] == 0x7b && int(w[14])<<8|int(w[15]) == n-10)
 	vc.Assert("psi", w[6+n] == 0x12 && w[7+n] == psi)
 	vc.Assert("requesttype", w[8+n]>>4 == 8 && w[8+n]&7 == rt&7)
-	vc.Assert("snssai", w[9+n] == 0x22 && w[10+n] == 4 && w[11+n] == sst)
+	vc.Assert("snssai", w[9+n] == 0x22 && w[10+n] == 4 && w[11+n] == sst && w[12+n] == ids.HexOctet(sd, 0) && w[13+n] == ids.HexOctet(sd, 1) && w[14+n] == ids.HexOctet(sd, 2))
 	vc.Assert("dnn", w[15+n] == 0x25 && w[16+n] == 9 && w[17+n] == 8 && vc.Forall(0, 8, func(j int) bool { return w[18+n+j] == dnn[j] }))
 }
